@@ -91,7 +91,12 @@ impl Decimal {
     pub(crate) fn to_sign_extended_bytes_with_len(&self, len: usize) -> AvroResult<Vec<u8>> {
         let sign_byte = 0xFF * u8::from(self.value.sign() == Sign::Minus);
         let mut decimal_bytes = vec![sign_byte; len];
-        let raw_bytes = self.value.to_signed_bytes_be();
+        let mut raw_bytes = self.value.to_signed_bytes_be();
+        if self.value.sign() == Sign::NoSign {
+            // Zero needs no bytes at all, so a decimal decoded from an empty byte array
+            // (length zero) can be written back
+            raw_bytes.clear();
+        }
         let num_raw_bytes = raw_bytes.len();
         let start_byte_index = len.checked_sub(num_raw_bytes).ok_or(Details::SignExtend {
             requested: len,
